@@ -3,28 +3,26 @@ From Coq Require Import String List Bool Arith Permutation.
 From DV Require Import Engine.Dispatch Engine.DispatchProofs Engine.Coverage.
 Import ListNotations.
 
-(* the recorded count of every (file, line, analysis class) key = number of location-carrying deliveries with that key *)
-Theorem C13_counts : forall V filt_str as_path line_of (l : list (analysis V)) es st m,
-  crashed st = false -> cov st = Some m -> all_ok V as_path es ->
-  exists m', cov (run_events V filt_str as_path line_of l es st) = Some m' /\
-    forall k, cov_get k m' = cov_get k m + count_key V as_path line_of l k (flat_map (ev_dels V filt_str l) es).
+(* the recorded count of every (file, line, analysis class) key = number of location-carrying deliveries with that key
+   (location-carrying: at least two arguments, the first a non-empty str, the second an int) *)
+Theorem C13_counts : forall V filt_str as_path is_iid line_of (l : list (analysis V)) es st m,
+  cov st = Some m ->
+  exists m', cov (run_events V filt_str as_path is_iid line_of l es st) = Some m' /\
+    forall k, cov_get k m' = cov_get k m + count_key V as_path is_iid line_of l k (flat_map (ev_dels V filt_str l) es).
 Proof. exact coverage_counts. Qed.
 Print Assumptions C13_counts.
 
-(* enabling coverage changes neither what is delivered nor turns the run into a crash -- when every
-   delivered event with two or more arguments starts with a str path (hypothesis all_ok) *)
-Theorem C13_no_crash_partial : forall V filt_str as_path line_of (l : list (analysis V)) es,
-  all_ok V as_path es ->
-  crashed (run_events V filt_str as_path line_of l es (init_state V true)) = false /\
-  dels (run_events V filt_str as_path line_of l es (init_state V true))
-  = dels (run_events V filt_str as_path line_of l es (init_state V false)).
+(* enabling coverage never changes what is delivered (and the engine model has no failure state at all) *)
+Theorem C13_coverage_transparent : forall V filt_str as_path is_iid line_of (l : list (analysis V)) es,
+  dels (run_events V filt_str as_path is_iid line_of l es (init_state V true))
+  = dels (run_events V filt_str as_path is_iid line_of l es (init_state V false)).
 Proof.
-  intros V fs ap lo l es H.
-  destruct (run_events_dels V fs ap lo l es (init_state V true) eq_refl (or_intror H)) as [A [B _]].
-  destruct (run_events_dels V fs ap lo l es (init_state V false) eq_refl (or_introl eq_refl)) as [C _].
-  split; [exact B|]. rewrite A, C. reflexivity.
+  intros V fs ap ii lo l es.
+  destruct (run_events_dels V fs ap ii lo l es (init_state V true)) as [A _].
+  destruct (run_events_dels V fs ap ii lo l es (init_state V false)) as [C _].
+  rewrite A, C. reflexivity.
 Qed.
-Print Assumptions C13_no_crash_partial.
+Print Assumptions C13_coverage_transparent.
 
 Theorem C13_merge_sum : forall k base new, keys_distinct new = true -> cget k (merge base new) = cget k base + cget k new.
 Proof. exact merge_sum. Qed.
